@@ -13,6 +13,12 @@ git apply $D/mutant_$K.diff || { echo "APPLY FAILED"; git -C /repo worktree remo
 echo "== demo on mutated tree"; /venv/bin/python $D/demo_$K.py > /tmp/vw_${P}_$K.mut.out 2>&1; m=$?; tail -3 /tmp/vw_${P}_$K.mut.out; echo "mutant_exit=$m"
 echo "== test suite on mutated tree"
 /venv/bin/python -m pytest -q -p no:cacheprovider --timeout=900 -n 5 tests 2>&1 | tail -6 > /tmp/vw_${P}_$K.tests.out; cat /tmp/vw_${P}_$K.tests.out
+# test_obb_mesh_large asserts a wall-clock bound and fails under CPU load: when it fails, run it again on its own
+if grep -q "^FAILED tests/test_bounds.py::BoundsTest::test_obb_mesh_large" /tmp/vw_${P}_$K.tests.out; then
+  if /venv/bin/python -m pytest -q -p no:cacheprovider tests/test_bounds.py::BoundsTest::test_obb_mesh_large > /tmp/vw_${P}_$K.obb.out 2>&1; then
+    echo "test_obb_mesh_large: failed under load, passes when run alone"; sed -i '/test_obb_mesh_large/d' /tmp/vw_${P}_$K.tests.out
+  fi
+fi
 fails=$(grep -E "^FAILED|^ERROR" /tmp/vw_${P}_$K.tests.out | grep -v "test_on_edge\|test_primitives.py::PrimitiveTest::test_primitives" | wc -l)
 summary=$(grep -E "passed|failed" /tmp/vw_${P}_$K.tests.out | tail -1)
 cd /; git -C /repo worktree remove --force $W
